@@ -13,6 +13,10 @@ Legs (DESIGN 3.3):
   (b3) pointer arithmetic (parse.c new_add / new_sub; C01_ptr_scale / C01_ptr_add / C01_ptr_diff): instruction text of p+i, i+p,
       p-i, &p[i], p-q, p+=i, p-=i, ++p, --p, p++, p-- for every element size x index type = the model (64-bit imul of the
       sign/zero-extended index); plus an end-to-end oracle with byte offsets beyond 2^31 / 2^32 inside a 16 GiB PROT_NONE mapping.
+  (b4) lvalues other than variables (Model/C01Lvalue `compileL`; C01_lvalue_load / C01_lvalue_assign / C01_lvalue_opassign): text of
+      `s.m…`, `p->m…`, `(*p).m`, `a[i]`, `q[i]`, `*q`, `sa[i].m…`, `p[i].m…`, `*(q + i)` read, assigned and compound-assigned, index and
+      right-hand side any generated expression, = the model (gen_addr, the op= rewriting through the hidden pointer incl. the
+      member special case, member offsets by the psABI rule); plus a three-way oracle (Spec / gcc / chibicc) on the same forms.
   (c) Model/X86 <-> CPU: every sequence the theorems talk about is assembled and run on the host on boundary + random
       register files; registers and defined flags must equal `drv_c01 x86exec`; #DE must coincide with `none`.  Model/X86Jump
       (labels and jumps): cmp / test followed by each of the fourteen jCC, and cmp_zero + je / jne on every operand type,
@@ -46,12 +50,15 @@ TRUSTED_BASE = [
     'Model/C01ExprJ.lean (compileJ: compileX extended by && || ?: as ND_LOGAND / ND_LOGOR / ND_COND print them, label numbers '
     'from the counter count() in the order of emission); tied by text equality (instructions, label definitions, jump '
     'targets, exact label numbers) with `chibicc -S` on generated nests',
+    'Model/C01Lvalue.lean (compileL: gen_addr of ND_MEMBER / ND_DEREF / subscripts, reads, ND_ASSIGN and the to_assign rewriting '
+    'through the hidden pointer for lvalues other than variables; lvAddr: the address C11 gives the lvalue); tied by text equality '
+    'with `chibicc -S` on generated functions over struct / array / pointer objects and by a three-way run-time oracle',
     'Model/X86Jump.lean (programs with labels and jumps on top of Model/X86: label resolution by position, jCC reads the flags '
     'like setCC); validated on every run against the host CPU (cmp / test + each jCC, cmp_zero + je / jne, real labels)',
     'translators tools/extract/commontype.py (get_common_type, add_type rules, primitive types) and casttable.py '
     '(cast_table, getTypeId); argument / return / initializer conversion insertion of parse.c is modelled as a cast of the '
-    'expression (tied by the text legs); postfix ++/-- on _Bool, lvalues other than variables and '
-    'compound assignment to pointers are covered by the text ties and the end-to-end oracle only (testing)',
+    'expression (tied by the text legs); postfix ++/-- on _Bool, and lvalues other than variables nested inside operands '
+    '(proved at the root of an expression only) are covered by the text ties and the end-to-end oracle only (testing)',
 ]
 ASSUMPTIONS = ['LP64, plain char signed, two\'s complement, arithmetic >> on signed (gcc\'s documented choices)',
                'expressions without unsequenced conflicting accesses (the generator modifies a variable at most once and '
@@ -1146,6 +1153,354 @@ def check_pointer_text(ctx, corr):
             return
     corr.extra['pointer_functions_compared_with_chibicc_S'] = len(live)
 
+# ------------------------------------------------------------------ leg (b4): lvalues other than variables, text
+
+# struct pool: (C name, [(member name, scalar type | (nested struct name))]); offsets by the psABI rule (natural alignment)
+LV_STRUCTS = {
+    'LIn': [('a', 'i16'), ('b', 'u32'), ('c', 'i8'), ('d', 'u64')],
+    'LS0': [('c', 'i8'), ('x', 'i32'), ('h', 'i16'), ('l', 'i64'), ('in', ('LIn',)), ('f', 'bool'), ('w', 'u16'), ('u', 'u8'), ('z', 'u32')],
+}
+
+def lv_layout(name):
+    """(size, align, {member: (offset, type-or-struct)})"""
+    off, al, mem = 0, 1, {}
+    for m, t in LV_STRUCTS[name]:
+        if isinstance(t, tuple):
+            sz, a, _ = lv_layout(t[0])
+        else:
+            sz = a = SIZE[t]
+        off = (off + a - 1) // a * a
+        mem[m] = (off, t)
+        off += sz
+        al = max(al, a)
+    return (off + al - 1) // al * al, al, mem
+
+def lv_struct_decls():
+    out = ''
+    for name in ('LIn', 'LS0'):
+        out += f'struct {name} {{ ' + ' '.join((f'struct {t[0]} {m};' if isinstance(t, tuple) else f'{CNAME[t]} {m};') for m, t in LV_STRUCTS[name]) + ' };\n'
+    return out
+
+def gen_member_path(rng, sname):
+    """a path of members from struct `sname` to a scalar: ([(name, offset)], scalar type)"""
+    path = []
+    while True:
+        _, _, mem = lv_layout(sname)
+        m = rng.choice(sorted(mem))
+        o, t = mem[m]
+        path.append((m, o))
+        if isinstance(t, tuple):
+            sname = t[0]
+        else:
+            return path, t
+
+def gen_lvalue(rng, ntys, et):
+    """(C text builder, prefix text, object type, expressions used).  Variables of the model: 0..n-1 the scalars v0.., n = p
+    (struct LS0 *), n+1 = q (et *), n+2 = s (struct LS0), n+3 = a (et[5]), n+4 = sa (struct LS0[3])"""
+    n = len(ntys)
+    ssz = lv_layout('LS0')[0]
+    esz = SIZE[et]
+    idx = lambda: gen_tie(rng, rng.randrange(0, 4), ntys, effects=rng.random() < 0.4, jumps=rng.random() < 0.4)
+    k = rng.randrange(9)
+    exprs = []
+    def members(base_c, base_p, sname='LS0'):
+        path, t = gen_member_path(rng, sname)
+        c = base_c + ''.join('.' + m for m, _ in path)
+        pfx = base_p
+        for _, o in path:
+            pfx = f'LM {o} {pfx}'
+        return c, pfx, t
+    if k == 0:
+        return members('s', f'LV {n + 2}') + (exprs,)
+    if k == 1:
+        path, t = gen_member_path(rng, 'LS0')
+        c = 'p->' + '.'.join(m for m, _ in path)
+        pfx = f'LD {n}'
+        for _, o in path:
+            pfx = f'LM {o} {pfx}'
+        return c, pfx, t, exprs
+    if k == 2:
+        return members('(*p)', f'LD {n}') + (exprs,)
+    if k == 3:
+        e = idx(); exprs.append(e)
+        return f'a[{tie_c(e)}]', f'LI {n + 3} {esz} {rp(e)}', et, exprs
+    if k == 4:
+        e = idx(); exprs.append(e)
+        return f'q[{tie_c(e)}]', f'LP {n + 1} {esz} {rp(e)}', et, exprs
+    if k == 5:
+        return '*q', f'LD {n + 1}', et, exprs
+    if k == 6:
+        e = idx(); exprs.append(e)
+        return members(f'sa[{tie_c(e)}]', f'LI {n + 4} {ssz} {rp(e)}') + (exprs,)
+    if k == 7:
+        e = idx(); exprs.append(e)
+        return members(f'p[{tie_c(e)}]', f'LP {n} {ssz} {rp(e)}') + (exprs,)
+    e = idx(); exprs.append(e)
+    return f'*(q + {tie_c(e)})', f'LP {n + 1} {esz} {rp(e)}', et, exprs
+
+def check_lvalues(ctx, corr, N):
+    """Model/C01Lvalue `compileL` (objects of C01_lvalue_load / C01_lvalue_assign / C01_lvalue_opassign) against gen_addr / gen_expr
+    and the parse.c rewriting of op= for members and dereferences: `R f(struct LS0 *p, T *q, T0 v0, ..) { struct LS0 s; T a[5];
+    struct LS0 sa[3]; &s; &a; &sa; return ROOT; }` with ROOT = an lvalue `s.m…`, `p->m…`, `(*p).m`, `a[i]`, `q[i]`, `*q`, `sa[i].m…`,
+    `p[i].m…`, `*(q + i)` read, assigned or compound-assigned, index and right-hand side any generated expression (with , = op=
+    ++ -- && || ?:): the lines after the three `lea` that reveal the offsets of the locals must be the model's, member offsets
+    as the psABI layout rule gives them, label numbers exact."""
+    rng = ctx.rng
+    cases, src = [], lv_struct_decls()
+    for k in range(N):
+        n = rng.randrange(1, 4)
+        tys = [rng.choice(TYS) for _ in range(n)]
+        et = rng.choice(TYS)
+        lc, lp, t, exprs = gen_lvalue(rng, tys, et)
+        form = k % 3 if k >= 27 else (k // 9) % 3
+        if form == 0:
+            ctext, pfx = lc, f'LOAD {t} {lp}'
+        elif form == 1:
+            e = gen_tie(rng, rng.randrange(0, 4), tys, effects=rng.random() < 0.3, jumps=rng.random() < 0.4)
+            exprs = exprs + [e]
+            ctext, pfx = f'{lc} = {tie_c(e)}', f'LSET {t} {lp} {rp(e)}'
+        else:
+            op = rng.choice(COMPOUND)
+            e = gen_tie(rng, rng.randrange(0, 3), tys, effects=rng.random() < 0.3, jumps=rng.random() < 0.4)
+            exprs = exprs + [e]
+            ctext, pfx = f'{lc} {CBIN[op]}= {tie_c(e)}', f'LOP {op} {t} {lp} {rp(e)}'
+        ret = rng.choice(TYS)
+        name = f'g{k}'
+        params = ', '.join([f'struct LS0 *p', f'{CNAME[et]} *q'] + [f'{CNAME[x]} v{i}' for i, x in enumerate(tys)])
+        src += f'{CNAME[ret]} {name}({params}) {{ struct LS0 s; {CNAME[et]} a[5]; struct LS0 sa[3]; &s; &a; &sa; return {ctext}; }}\n'
+        cases.append((name, tys, et, ret, pfx, sum(count_labels(e) for e in exprs), ctext))
+    path = os.path.join(ctx.scratch, 'lvtie.c')
+    open(path, 'w').write(src)
+    rc_, asm, err = sh([ctx.cc, '-S', '-o', '-', path], timeout=300)
+    if rc_ != 0:
+        corr.violations.append({'what': 'chibicc -S fails on functions returning an lvalue expression', 'input': src[:800],
+                                'expected': 'compiles', 'got': err[-300:]})
+        return
+    nlab = {c[0]: c[5] for c in cases}
+    c0, ctr = {}, 1
+    for nm in re.findall(r'^(g\d+):$', asm, re.M):
+        if nm in nlab and nm not in c0:
+            c0[nm] = ctr
+            ctr += nlab[nm]
+    req, live = '', []
+    for name, tys, et, ret, pfx, nl, ctext in cases:
+        lines = fn_text(asm, name)
+        np_ = 2 + len(tys)
+        if lines is None or len(lines) < 4 + np_ + 3 or name not in c0:
+            corr.disagreements.append({'kind': 'asm-text', 'spec': name, 'note': 'function not found in chibicc -S output'})
+            return
+        offs = []
+        for l in lines[4:4 + np_]:
+            mm = re.fullmatch(r'\s*mov %\w+, (-?\d+)\(%rbp\)', l)
+            if not mm:
+                corr.disagreements.append({'kind': 'asm-text', 'spec': name, 'note': 'prologue of unknown shape: ' + l})
+                return
+            offs.append(int(mm.group(1)))
+        locs = []
+        for l in lines[4 + np_:4 + np_ + 3]:
+            mm = re.fullmatch(r'\s*lea (-?\d+)\(%rbp\), %rax', l)
+            if not mm:
+                corr.disagreements.append({'kind': 'asm-text', 'spec': name, 'note': 'address-of statement of unknown shape: ' + l})
+                return
+            locs.append(int(mm.group(1)))
+        body = body_instrs(lines[4 + np_ + 3:])
+        temps = sorted({int(x) for i in body for x in re.findall(r'(-?\d+)\(%rbp\)', i)} - set(offs) - set(locs))
+        # model variables: v0.. , p, q, s, a, sa
+        vt = tys + ['u64', 'u64', 'i8', et, 'i8']
+        vo = offs[2:] + offs[:2] + locs
+        req += f"{','.join(vt)} {','.join(str(x) for x in vo)} {','.join(str(x) for x in temps) or '-'} {c0[name]} {ret} | {pfx}\n"
+        live.append((name, ctext, body, len(temps), nl))
+    model = ctx.driver('lvalue', req).splitlines()
+    if len(model) != len(live):
+        corr.disagreements.append({'kind': 'driver', 'note': f'drv_c01 lvalue answered {len(model)} lines for {len(live)} functions'})
+        return
+    for (name, ctext, got, ntemps, nl), m in zip(live, model):
+        corr.evaluations += 1
+        corr.count('lvalue-text-tie')
+        w = m.split(' ', 4)
+        cline = [l for l in src.splitlines() if f' {name}(' in l][0]
+        if w[0] != 'ok' or len(w) < 5:
+            corr.disagreements.append({'kind': 'asm-text', 'c': cline, 'note': 'compileL does not handle the form: ' + m[:80]})
+            return
+        corr.nontrivial.add('lvtie:' + hashlib.sha1(cline.encode()).hexdigest())
+        want = w[4].split(';;')
+        bad = None
+        if got != want:
+            j = next((i for i in range(min(len(got), len(want))) if got[i] != want[i]), min(len(got), len(want)))
+            bad = {'first_difference_at': j, 'chibicc': got[j:j + 4], 'model': want[j:j + 4], 'first_label_number': c0[name],
+                   'note': 'Model/C01Lvalue compileL (gen_addr of members / subscripts / dereferences, the op= rewriting through the hidden '
+                           'pointer, member offsets by the psABI rule) does not print what chibicc -S prints'}
+        elif ntemps != int(w[2]):
+            bad = {'note': f'hidden temporaries: chibicc uses {ntemps}, the model {w[2]}'}
+        elif int(w[3]) != c0[name] + nl:
+            bad = {'note': f'label counter: the model leaves count() at {w[3]}, expected {c0[name] + nl}'}
+        if bad:
+            bad.update({'kind': 'asm-text', 'c': cline})
+            corr.disagreements.append(bad)
+            return
+    corr.extra['lvalue_functions_compared_with_chibicc_S'] = len(live)
+
+# ------------------------------------------------------------------ lvalues other than variables: end-to-end oracle
+
+def lv_leaves(sname, prefix=''):
+    """[(C path, byte offset, scalar type)] of all scalar members of the struct, nested ones included"""
+    out = []
+    _, _, mem = lv_layout(sname)
+    for m, _ in LV_STRUCTS[sname]:
+        o, t = mem[m]
+        if isinstance(t, tuple):
+            out += [(prefix + m + '.' + pth, o + oo, tt) for pth, oo, tt in lv_leaves(t[0])]
+        else:
+            out.append((prefix + m, o, t))
+    return out
+
+def shift_vars(e, k):
+    if e[0] == 'V':
+        return ('V', e[1] + k)
+    if e[0] in ('SET', 'PREINC', 'PREDEC', 'POSTINC', 'POSTDEC'):
+        return (e[0], e[1] + k) + tuple(shift_vars(x, k) if isinstance(x, tuple) else x for x in e[2:])
+    if e[0] == 'OPSET':
+        return ('OPSET', e[1], e[2] + k) + tuple(shift_vars(x, k) if isinstance(x, tuple) else x for x in e[3:])
+    return tuple(shift_vars(x, k) if isinstance(x, tuple) else x for x in e)
+
+def run_lvalue_oracle(ctx, corr, N):
+    """`s.m…`, `p->m…`, `(*p).m`, `a[i]`, `q[i]`, `*q`, `*(q + i)` read, assigned and compound-assigned at the root of an
+    expression, three ways.  Every scalar object (the scalars v0..v2, the 12 leaves of `struct LS0 s`, the elements of `a[4]`) is a
+    variable of the Spec store; the Spec evaluates the index expression first (dropping out-of-range subscripts: undefined),
+    which fixes the designated variable, then the assignment on that variable (`SET` / `OPSET` of Spec/IntSpec).  gcc must
+    agree with the Spec (spec validation), chibicc with both (the property)."""
+    rng = ctx.rng
+    leaves = lv_leaves('LS0')
+    tests = []
+    for _ in range(N):
+        vt = [rng.choice(TYS) for _ in range(3)]
+        et = rng.choice(TYS)
+        tys = vt + [t for _, _, t in leaves] + [et] * 4
+        vals = [rng.choice(boundary(t)) if rng.random() < 0.5 else rng.randint(max(tmin(t), -40), min(tmax(t), 40)) for t in tys]
+        vals[0] = rng.randint(max(tmin(vt[0]), -1), min(tmax(vt[0]), 3))          # the subscript variable
+        k = rng.randrange(7)
+        ie = None
+        if k in (3, 4, 6):
+            mod = {'done': set()}
+            ie = remove_conflicts(gen_nest(rng, rng.randrange(0, 3), vt[:1], set(), mod), mod['done']) if rng.random() < 0.6 else ('V', 0)
+        if k <= 2:
+            j = rng.randrange(len(leaves))
+            pth = leaves[j][0]
+            ctext = ['s.' + pth, 'p->' + pth, '(*p).' + pth][k]
+            t, target = leaves[j][2], 3 + j
+            lo = hi = 0
+        elif k == 3:
+            ctext, t, target, lo, hi = 'a[%s]', et, 3 + len(leaves), 0, 3
+        elif k == 4:
+            ctext, t, target, lo, hi = 'q[%s]', et, 3 + len(leaves) + 1, -1, 2
+        elif k == 5:
+            ctext, t, target, lo, hi = '*q', et, 3 + len(leaves) + 1, 0, 0
+        else:
+            ctext, t, target, lo, hi = '*(q + %s)', et, 3 + len(leaves) + 1, -1, 2
+        form = rng.randrange(3)
+        e = None
+        if form > 0:
+            mod = {'done': set()}
+            e = shift_vars(remove_conflicts(gen_nest(rng, rng.randrange(0, 4), vt[1:], set(), mod), mod['done']), 1)
+            if form == 2 and rng.random() < 0.35:
+                e = ('L', 'i32', rng.choice([0, 1, 2, 3, 7]))
+        op = rng.choice(COMPOUND) if form == 2 else None
+        tests.append({'tys': tys, 'vals': vals, 'vt': vt, 'et': et, 'ie': ie, 'ctext': ctext, 't': t, 'target': target,
+                      'lo': lo, 'hi': hi, 'form': form, 'e': e, 'op': op})
+    env = lambda t, vals: f"{','.join(sty(x) for x in t['tys'])} {','.join(str(v) for v in vals)}"
+    # step 1: the subscript
+    req = ''.join(f"{env(t, t['vals'])} | {rp(t['ie']) if t['ie'] else 'L i32 0'}\n" for t in tests)
+    out1 = ctx.driver('eval', req).splitlines()
+    if len(out1) != len(tests):
+        corr.disagreements.append({'kind': 'driver', 'note': 'drv_c01 eval (lvalue subscripts): wrong number of answers'})
+        return
+    live = []
+    for t, o in zip(tests, out1):
+        if not o.startswith('ok '):
+            corr.count('skipped_ub')
+            continue
+        w = o.split()
+        kk = int(w[2])
+        if not (t['lo'] <= kk <= t['hi']):
+            corr.count('skipped_ub')
+            corr.count('skipped_ub:subscript out of range')
+            continue
+        t['i'] = t['target'] + kk
+        t['vals0'] = [int(x) for x in w[3].split(',')]
+        live.append(t)
+    # step 2: the root form on the designated variable
+    def root(t):
+        if t['form'] == 0:
+            return f"V {t['i']}"
+        if t['form'] == 1:
+            return f"SET {t['i']} {rp(t['e'])}"
+        return f"OPSET {t['op']} {t['i']} {rp(t['e'])}"
+    out2 = ctx.driver('eval', ''.join(f"{env(t, t['vals0'])} | {root(t)}\n" for t in live)).splitlines()
+    if len(out2) != len(live):
+        corr.disagreements.append({'kind': 'driver', 'note': 'drv_c01 eval (lvalue root forms): wrong number of answers'})
+        return
+    final = []
+    for t, o in zip(live, out2):
+        if not o.startswith('ok '):
+            corr.count('skipped_ub')
+            continue
+        w = o.split()
+        t['want'] = [str(int(w[2]) & M64), str(SIZE[w[1]])] + [str(int(x) & M64) for x in w[3].split(',')]
+        final.append(t)
+    leaves_c = [pth for pth, _, _ in leaves]
+    body = ''
+    for n, t in enumerate(final):
+        decl = ''.join(f'  {CNAME[ty]} v{k} = ({CNAME[ty]}){clit(v)};\n' for k, (ty, v) in enumerate(zip(t['vt'], t['vals'][:3])))
+        decl += '  struct LS0 s;\n' + ''.join(f'  s.{pth} = ({CNAME[ty]}){clit(v)};\n'
+                                               for (pth, _, ty), v in zip(leaves, t['vals'][3:3 + len(leaves)]))
+        av = t['vals'][3 + len(leaves):]
+        decl += f"  {CNAME[t['et']]} a[4]; " + ' '.join(f"a[{k}] = ({CNAME[t['et']]}){clit(v)};" for k, v in enumerate(av)) + '\n'
+        decl += f"  struct LS0 *p = &s; {CNAME[t['et']]} *q = a + 1;\n"
+        lvc = t['ctext'] % rc(t['ie'], t['vt']) if '%s' in t['ctext'] else t['ctext']
+        if t['form'] == 0:
+            ex = lvc
+        elif t['form'] == 1:
+            ex = f"{lvc} = {rc(t['e'], t['vt'])}"
+        else:
+            ex = f"{lvc} {CBIN[t['op']]}= {rc(t['e'], t['vt'])}"
+        t['c'] = ex
+        body += (f'static void t{n}(void) {{\n{decl}  unsigned long r = (unsigned long)({ex});\n  int sz = (int)sizeof({ex});\n'
+                 f'  printf("{n} %lu %d", r, sz);\n'
+                 + ''.join(f'  printf(" %lu", (unsigned long)v{k});\n' for k in range(3))
+                 + ''.join(f'  printf(" %lu", (unsigned long)s.{pth});\n' for pth in leaves_c)
+                 + ''.join(f'  printf(" %lu", (unsigned long)a[{k}]);\n' for k in range(4))
+                 + '  printf("\\n");\n}\n')
+    main = 'int main(void) {\n' + ''.join(f'  t{n}();\n' for n in range(len(final))) + '  return 0;\n}\n'
+    src = os.path.join(ctx.scratch, 'lvoracle.c')
+    open(src, 'w').write('int printf(const char *, ...);\n' + PRELUDE.split('\n', 2)[2] + lv_struct_decls() + body + main)
+    rc_c = compile_run([ctx.cc, '-o', src + '.chibi', src], src + '.chibi')
+    rc_g = compile_run(['gcc', '-std=c11', '-w', '-O0', '-o', src + '.gcc', src], src + '.gcc')
+    for pth in (src + '.chibi', src + '.gcc'):
+        if os.path.exists(pth):
+            os.unlink(pth)
+    if rc_g[0] is None:
+        corr.disagreements.append({'kind': 'gcc', 'note': 'gcc rejected the lvalue program: ' + str(rc_g[1])})
+        return
+    if rc_c[0] is None:
+        corr.violations.append({'what': 'chibicc fails on the lvalue program', 'input': open(src).read()[:1500], 'expected': 'compiles',
+                                'got': rc_c[1]})
+        return
+    for n, t in enumerate(final):
+        corr.evaluations += 1
+        corr.count('lvalue-oracle')
+        desc = (f"{'; '.join(f'{CNAME[ty]} v{k} = {v}' for k, (ty, v) in enumerate(zip(t['vt'], t['vals'][:3])))}; struct LS0 s, "
+                f"{CNAME[t['et']]} a[4] (values {t['vals'][3:]}), p = &s, q = a + 1: {t['c']}")
+        corr.nontrivial.add('lvo:' + hashlib.sha1(desc.encode()).hexdigest())
+        if rc_g[0].get(n) != t['want']:
+            corr.disagreements.append({'kind': 'spec-vs-gcc', 'input': desc, 'spec': t['want'], 'gcc': rc_g[0].get(n),
+                                       'note': 'lvalue root form: Spec (subscript first, then SET / OPSET on the designated object) disagrees with gcc'})
+            return
+        if rc_c[0].get(n) != t['want']:
+            corr.violations.append({'what': 'member / subscript / dereference lvalue read, assigned or compound-assigned: chibicc differs from C11 '
+                                            '(fields: value mod 2^64, sizeof, v0..v2, the 12 scalar members of s, a[0..3] afterwards)',
+                                    'input': desc, 'expected': t['want'], 'got': rc_c[0].get(n)})
+            return
+
 # ------------------------------------------------------------------ leg (c): X86 model vs CPU
 
 REGVALS = [0, 1, 2, 3, 5, 7, 8, 15, 16, 31, 32, 33, 63, 64, 65, 0x7f, 0x80, 0x81, 0xff, 0x100, 0x7fff, 0x8000, 0xffff, 0x10000,
@@ -1345,13 +1700,16 @@ def correspond(ctx, corr):
                  'one-operator functions against the model; text (instructions, labels, jumps) of generated expression trees (pure, with '
                  ', = op= ++ --, with && || ?:) and of every pointer-arithmetic form x element size x index type against compileE / '
                  'compileX / compileJ / scaleCode (non-trivial = more than 12 lines); pointer scaling with byte offsets beyond 2^31 and 2^32 (non-trivial = '
-                 '|offset| >= 2^31); every modelled instruction sequence (incl. lea, mov $imm) and every conditional jump after cmp / test against the host CPU.')
+                 '|offset| >= 2^31); members / subscripts / dereferences read, assigned, compound-assigned: text of generated functions '
+                 'against compileL and a three-way oracle on the objects afterwards; every modelled instruction sequence (incl. lea, mov $imm) and every conditional jump after cmp / test against the host CPU.')
     known_witness(ctx, corr)
     check_sequences(ctx, corr)
     if not corr.disagreements:
         check_compile(ctx, corr, 700 if not ctx.thorough else 12000)
     if not corr.disagreements:
         check_pointer_text(ctx, corr)
+    if not corr.disagreements:
+        check_lvalues(ctx, corr, 400 if not ctx.thorough else 6000)
     check_cpu(ctx, corr, 60 if not ctx.thorough else 1500)
     if corr.disagreements:
         return
@@ -1366,6 +1724,7 @@ def correspond(ctx, corr):
         return
     run_pointers(ctx, corr, 2 if not ctx.thorough else 20)
     run_pointer_scaling(ctx, corr, 2 if not ctx.thorough else 40)
+    run_lvalue_oracle(ctx, corr, 1500 if not ctx.thorough else 30000)
     corr.extra['exhaustive_subspace'] = ('operators x 9x9 operand type pairs x ' + ('all boundary x boundary value pairs' if ctx.thorough else 'sampled boundary/random value pairs') + '; 81 cast pairs and 4 unary operators x all boundary values; every instruction sequence of the model on the CPU')
 
 def search(ctx, broken, corr):
@@ -1377,6 +1736,7 @@ def search(ctx, broken, corr):
             break
     run_pointers(ctx, c2, 6)
     run_pointer_scaling(ctx, c2, 8)
+    run_lvalue_oracle(ctx, c2, 6000)
     corr.evaluations += c2.evaluations
     for v in c2.violations:
         if not v.get('known_id'):
@@ -1417,12 +1777,16 @@ MANIFEST = {
                   'steps because every jump is forward; short-circuit evaluation: side effects of unevaluated operands do not happen) '
                   'leaves %rax representing the C11 value in the C11 type, the frame holding the C11 store, %rsp/%rbp and all other '
                   'memory at or above %rsp unchanged; pointer arithmetic scales the index by a 64-bit multiplication of the '
-                  'sign/zero-extended index for every index type and value (C01_ptr_scale, C01_ptr_add, C01_ptr_diff).  Tied every run '
+                  'sign/zero-extended index for every index type and value (C01_ptr_scale, C01_ptr_add, C01_ptr_diff); p += e, p -= e, '
+                  '++p, --p, p++, p-- through the hidden pointer temporary store and yield the C11 address (C01_ptr_opassign, '
+                  'C01_ptr_postfix); an lvalue s.m / a[i] / *p / p->m / p[i] (any nesting, index any expression) read, assigned or '
+                  'compound-assigned at the root of an expression behaves as on the variable it designates - gen_addr computes the '
+                  'C11 address, the member rewriting of op= included (C01_lvalue_load, C01_lvalue_assign, C01_lvalue_opassign).  Tied every run '
                   'by translators (tables), asm-text equality of 1,458 one-operator functions, of generated expression trees and of 550+ pointer-arithmetic functions with chibicc -S, CPU execution of every '
                   'modelled sequence, and a three-way chibicc / Spec / gcc oracle on generated expression programs in every context.',
     'level_note': 'Not proved: postfix ++/-- on _Bool objects (two temporaries), '
-                  'lvalues other than variables (members, dereferences, bit-fields), compound assignment / ++ -- on pointers (modelled '
-                  'and text-tied, not proved), the typing function elab of parse.c as a whole (its table is proved: C01_op_type): '
+                  'lvalues other than variables nested inside operands (proved as the root of an expression: read, =, op=), postfix '
+                  '++/-- on such lvalues, bit-field members, the typing function elab of parse.c as a whole (its table is proved: C01_op_type): '
                   'covered by the text ties and the end-to-end oracle (testing). '
                   'Trusted: Spec/IntSpec (validated against gcc), Model/X86 (validated against the CPU), Model/C01Codegen (asm text tie).',
     'technique': 'Lean 4 bit-vector proofs (simp + omega over toNat/toInt, no bv_decide/native_decide) over regenerated tables; '
